@@ -78,6 +78,20 @@ def run_check(P, tier, seed, replay=None):
             n_thm, n_ok, probs, axioms_used = audit_assumptions(r.out, P.COQ_PROPS)
             for p_ in probs:
                 broken.append(("assumptions", p_, ""))
+        # further theorem files of the same property (each built and audited separately, one make call per file so that
+        # the Print Assumptions blocks can be attributed)
+        for extra_props in getattr(P, "COQ_PROPS_EXTRA", []):
+            evo = extra_props[:-2] + ".vo"
+            re_ = coq_make([evo], force=[evo])
+            if not re_.ok:
+                broken.append(("proof", re_.detail, re_.out[-4000:]))
+                r = re_
+                continue
+            t_, k_, probs, ax_ = audit_assumptions(re_.out, extra_props)
+            n_thm += t_; n_ok += k_
+            axioms_used = sorted(set(axioms_used) | set(ax_))
+            for p_ in probs:
+                broken.append(("assumptions", "%s: %s" % (extra_props, p_), ""))
         chk_note = None
         if tier == "thorough" and r.ok:
             rc_ = coqchk(P.COQ_PROPS)
